@@ -32,12 +32,14 @@ def _in_pred(items):
     return p
 class Nfa:
     """states are ints; trans[state] = list of (pred|None, target)   (None = epsilon)"""
-    def __init__(s, pattern, flags=0, drop_trailing_boundary=False):
-        s.trans = []; s.preds = []
+    def __init__(s, pattern, flags=0, drop_trailing_boundary=False, drop_trailing_assertions=False):
+        s.trans = []; s.preds = []; s.dropped = []
         try: tree = sre.parse(pattern, flags)
         except Exception as e: raise Unsupported("regex does not parse: %r (%s)" % (pattern, e))
         items = list(tree)
         if drop_trailing_boundary and items and items[-1] == (sc.AT, sc.AT_BOUNDARY): items = items[:-1]   # only for first-character queries
+        if drop_trailing_assertions:        # the *core* language: what the pattern consumes, without the zero-width context conditions at its end
+            while items and (items[-1][0] in (sc.ASSERT, sc.ASSERT_NOT) or items[-1] == (sc.AT, sc.AT_BOUNDARY)): s.dropped.insert(0, repr(items.pop()))
         s.pattern = pattern; s.start = s.new(); s.accept = s.new()
         end = s.build(items, s.start); s.eps(end, s.accept)
     def new(s): s.trans.append([]); return len(s.trans) - 1
@@ -106,6 +108,18 @@ def included(p1, p2):
     for Sa, Sb, w in _product(a, b, reps):
         if a.accept in Sa and b.accept not in Sb: return False, w
     return True, None
+def included_nfa(a, b):
+    """L(a) subset of L(b) for two Nfa objects; (True, None) or (False, witness word)"""
+    reps = representatives([a, b])
+    for Sa, Sb, w in _product(a, b, reps):
+        if a.accept in Sa and b.accept not in Sb: return False, w
+    return True, None
+def common_word(a, b):
+    """a word in L(a) and L(b), or None"""
+    reps = representatives([a, b])
+    for Sa, Sb, w in _product(a, b, reps):
+        if a.accept in Sa and b.accept in Sb: return w
+    return None
 def prefix_free(p):
     """no word of the language is a proper prefix of another word of the language"""
     a = Nfa(p); reps = representatives([a])
